@@ -69,6 +69,19 @@ func (f *Func) callGraph(args *argBuilder) (
 		return
 	}
 
+	// A value given by the caller never has to be produced: it doesn't
+	// depend on the converters that happen to output a value with the same
+	// name and type. Without this, such a converter could be run on the way
+	// to the given value (the same-name discount makes that detour free) and
+	// its output would replace the value the caller supplied.
+	for _, in := range vertexI {
+		for _, out := range g.OutEdges(in) {
+			if out != vertexRoot {
+				g.RemoveEdge(in, out)
+			}
+		}
+	}
+
 	// Next, for all values we may have or produce, we need to create
 	// the vertices for the type-only value. This lets us say, for example,
 	// that an input "A string" satisfies anything that requires only "string".
